@@ -12,6 +12,15 @@ CHECKS = {
                 "the enumerated sub-domain.",
         "note": "Trusts the reference (list indexing by (t-offset) mod total) and that durations are positive ints.",
     },
+    "C16": {
+        "technique": "property-based testing: Hypothesis generation against Fraction-exact closed-set semantics and "
+                     "arc semantics, plus an exhaustively enumerated pi/8 grid",
+        "text": "Tens of thousands of generated interval/query/scalar combinations per run (ints, floats, numpy "
+                "scalars, ends +-1ulp, arcs shorter/equal/longer than pi, wrapping images) compared with exact set "
+                "semantics; a pi/8 grid is enumerated completely. Exploration: no absence claim.",
+        "note": "Angle membership within 1e-9 of an arc end (other than the exact k=0 ends) is a don't-care; "
+                "arithmetic images are compared with the same float operation applied to the ends.",
+    },
 }
 
 NOT_APPLICABLE = [{"property_id": p, "reason": "check not built yet (work in progress; will be claimed once its "
